@@ -24,10 +24,19 @@ def main():
     sys.exit(3 if ok else 0)
   run = common.Run(a.pid, a.tier if a.tier in ('quick', 'thorough') else 'quick', seed)
   try:
+    from . import symjx
+    symjx.CROSS['budget'] = int(os.environ.get('VERIF_CROSSCHECK', '25' if run.tier == 'quick' else '400'))
+  except Exception:   # Engine-X-only environments
+    symjx = None
+  try:
     mod.check(run)
   except Exception as e:   # harness error => inconclusive, never success
     traceback.print_exc()
     run.fail('harness error: %r' % (e,))
+  if symjx is not None and symjx.CROSS['checked']:
+    run.extra['cvc5_crosscheck'] = {k: symjx.CROSS[k] for k in ('checked', 'agree', 'unknown', 'errors', 'disagree')}
+    if symjx.CROSS['disagree']:
+      run.fail('cvc5 disagrees with z3 on %d queries' % symjx.CROSS['disagree'])
   sys.exit(run.finish(getattr(mod, 'LEVEL', 'model_checking')))
 
 
